@@ -19,7 +19,9 @@ from symx.runner import Acc
 from symx.selftest import sparse_selftest
 from harness.common import real_code, RealCodeRaised, bound, z, fval, sym_patterns, isclose
 from harness.geom import DirStub, position_spec
-from harness.fgstub import FullSphereStub, make_fullgrid, gen_G, orbits
+from harness import fgstub
+from harness.common import bypass_guard
+from harness.fgstub import FullSphereStub, make_fullgrid, gen_G, orbits, exercise_full_decoys, decoy_value_factory, float_decoy_values
 
 PROPERTY = "C02"
 FUNCTIONS = ["molgri.space.fullgrid.FullGrid.get_full_prefactors (as a step of a history)", "molgri.space.fullgrid.FullGrid._get_N_N", "FullGrid.get_full_adjacency", "FullGrid.get_full_borders", "FullGrid.get_full_distances",
@@ -38,17 +40,17 @@ OUTSIDE = ["the geometry itself", "sizes beyond the bound", "Cartesian position 
 
 def bounds(tier):
     if tier == "quick":
-        return {"n_b": [1, 2, 3], "n_o": [1, 2, 3], "n_t": [2, 3], "direction_patterns": "all symmetric patterns", "rotation_patterns": "all (symbolic, by forking)",
+        return {"n_b": [1, 2, 3], "n_o": [1, 2, 3], "n_t": [1, 2, 3], "direction_patterns": "all symmetric patterns", "rotation_patterns": "all (symbolic, by forking)",
                 "cells": "<= 18 (n_b=3 only with n_o*n_t<=6)"}
-    return {"n_b": [1, 2, 3, 4], "n_o": [1, 2, 3, 4], "n_t": [2, 3, 4], "cells": "<= 36; n_b=4 with seeded halves of the 4096 rotation patterns"}
+    return {"n_b": [1, 2, 3, 4], "n_o": [1, 2, 3, 4], "n_t": [1, 2, 3, 4], "cells": "<= 36; n_b=4 with seeded halves of the 4096 rotation patterns"}
 
 
 def shapes(tier, seed):
     out = []
     if tier == "quick":
-        combos = [(b, o, t) for b in (1, 2, 3) for o in (1, 2, 3) for t in (2, 3) if not (b == 3 and o * t > 6)]
+        combos = [(b, o, t) for b in (1, 2, 3) for o in (1, 2, 3) for t in (1, 2, 3) if not (b == 3 and o * t > 6)]
     else:
-        combos = [(b, o, t) for b in (1, 2, 3) for o in (1, 2, 3, 4) for t in (2, 3, 4) if b * o * t <= 36]
+        combos = [(b, o, t) for b in (1, 2, 3) for o in (1, 2, 3, 4) for t in (1, 2, 3, 4) if b * o * t <= 36]
     for (b, o, t) in combos:
         pats = list(sym_patterns(o))
         if o == 4:
@@ -104,12 +106,18 @@ def run_shape(shape):
     o = DirStub(n_o, pattern, [SR(a) for a in area], {k: SR(v) for k, v in arc.items()}, {k: SR(v) for k, v in ang.items()}, sp, lambda l: sarr(l))
     N = n_b
     opp = lambda i: (i + N) % (2 * N)
+    dv = decoy_value_factory(eng)
 
     def body():
         with bound(F, bmat=sp.bmat, coo_array=sp.coo_array, diags=sp.diags, print=noprint, np=proxy), bound(TR, np=proxy, print=noprint), \
                 bound(Vm, coo_array=sp.coo_array, print=noprint, np=proxy):
             stub = FullSphereStub(n_b, sp, lambda k: bool(SB(pat[k])), lambda p, k: SR(val[p][k]), lambda i: SR(vols[i]), lambda l: sarr(l)) if n_b > 1 else None
-            fg = make_fullgrid(F, TR, Vm, n_b, o, sarr([SR(x) for x in r]), SR(f), G, stub)
+            radii = sarr([SR(x) for x in r])
+            # other full grids of the same process (another factor and a colliding radial grid; a Cartesian twin under the same names):
+            # built and asked for everything before the grid under test exists, and again between its construction and its first getter
+            exercise_full_decoys(F, TR, Vm, n_b, o, radii, SR(f), sarr, dv, G, stub, tag="A")
+            fg = make_fullgrid(F, TR, Vm, n_b, o, radii, SR(f), G, stub)
+            exercise_full_decoys(F, TR, Vm, n_b, o, radii, SR(f), sarr, dv, G, stub, tag="B")
             A, B, D = fg.get_full_adjacency(), fg.get_full_borders(), fg.get_full_distances()
             V = fg.get_total_volumes()
             # history on the same object: the prefactor getter divides in place on what the border getter hands out; asking for the
@@ -139,6 +147,8 @@ def run_shape(shape):
     for path in eng.explore(body):
         acc.begin(prover, path)
         if path.kind == "exc":
+            if fgstub.BYPASSED:
+                bypass_guard(path.value)
             acc.structural("no_exception", False, detail=repr(path.value) + (path.tb or "")[-600:], cex={"kind": "exception", "exc": type(path.value).__name__, "model": _model(path)})
             continue
         if acc.reachable is not True:
@@ -241,7 +251,13 @@ def real_fullgrid(shape, model):
     G = gen_G(n_b, shape["gseed"]) if n_b > 1 else None
     o = DirStub(n_o, pattern, area, arc, ang, rsp, lambda l: np.array(l))
     stub = FullSphereStub(n_b, rsp, present, value, volume, lambda l: np.array(l)) if n_b > 1 else None
-    fg = make_fullgrid(F, TR, Vm, n_b, o, np.array(r, dtype=float), f, G, stub)
+    dvf = float_decoy_values()
+    mk = lambda l: np.array(l, dtype=float)
+    import contextlib, io
+    with contextlib.redirect_stdout(io.StringIO()):
+        exercise_full_decoys(F, TR, Vm, n_b, o, np.array(r, dtype=float), f, mk, dvf, G, stub, tag="A")
+        fg = make_fullgrid(F, TR, Vm, n_b, o, np.array(r, dtype=float), f, G, stub)
+        exercise_full_decoys(F, TR, Vm, n_b, o, np.array(r, dtype=float), f, mk, dvf, G, stub, tag="B")
     spec = dict(area=area, arc=arc, ang=ang, r=r, f=f, present=present, value=value, volume=volume, orb=orb)
     return fg, spec
 
